@@ -40,7 +40,9 @@ SnaShapes ==
 SzxChunkIds == {"Z80R", "SPCR", "RAMP", "AY", "KEYB", "AMXM", "CRTR", "JUNK", "nonutf8", "z80r"}
 \* RAMP variants: page numbers 5, 8, 255, 2 (compressed, short stream), 3, 7: the first page missing on either model,
 \* the last present one, and far out of range
-VarMax(i) == IF i = "RAMP" THEN 5 ELSE 3
+\* ... and pages whose zlib stream inflates to one byte more than a page (6), to more than 64 KiB (7), to 16 MiB (8: a
+\* stream of a few KiB - a loader that inflates first and checks afterwards asks for memory out of all proportion)
+VarMax(i) == IF i = "RAMP" THEN 8 ELSE 3
 SzxChunks == UNION {[id : {i}, decl : {"exact", "short1", "zero", "over", "huge"}, var : 0..VarMax(i)] : i \in SzxChunkIds}
 SzxShapes1 == [fmt : {"szx"}, magic : {"ok", "bad", "nonutf8", "short"}, mid : {0, 1, 2, 3, 255}, chunks : {<<>>}]
                \cup [fmt : {"szx"}, magic : {"ok"}, mid : {1, 2}, chunks : {<<c>> : c \in SzxChunks}]
